@@ -476,3 +476,299 @@ Theorem grb_fast_grb : forall F S, wf F -> grb_fast F S = grb F S.
 Proof.
   intros F S Hw. apply bool_eq_iff. rewrite grb_gr. apply grb_fast_gr. exact Hw.
 Qed.
+
+(* ------------------------------------------------------------------ *)
+(** * 2. Every admissible set extends to a preferred extension *)
+
+Theorem adm_extends_pr : forall F S, wf F -> adm F S -> exists P, pr F P /\ incl S P.
+Proof.
+  intros F S _ HS.
+  destruct (fin_max (args F) (fun T => admb F T && subsetb S T)
+                    (fun T => adm F T /\ incl S T) (msize F))
+    as [M [HMi [[HMa HMS] Hmax]]].
+  - intros T. rewrite andb_true_iff, admb_adm, subsetb_incl. reflexivity.
+  - intros T U E [Ha Hi]. split; [exact (adm_seteq F T U E Ha) | exact (seteq_incl_r T U S E Hi)].
+  - apply msize_seteq.
+  - exists S. split; [apply adm_incl; exact HS|]. split; [exact HS | apply incl_refl].
+  - exists M. split; [|exact HMS]. split; [exact HMa|].
+    intros S' HS' Hi. apply (msize_eq_incl F M S' Hi (adm_incl F S' HS')).
+    apply Nat.le_antisymm; [apply msize_le; exact Hi|].
+    apply Hmax; [apply adm_incl; exact HS'|].
+    split; [exact HS' | exact (incl_tran HMS Hi)].
+Qed.
+
+Theorem pr_exists : forall F, wf F -> exists P, pr F P.
+Proof.
+  intros F Hw. destruct (adm_extends_pr F [] Hw (adm_nil F)) as [P [HP _]].
+  exists P. exact HP.
+Qed.
+
+(* ------------------------------------------------------------------ *)
+(** * 3. Inclusions between the semantics *)
+
+Lemma st_cfs : forall F S, st F S -> cfs F S.
+Proof. intros F S [Hi [Hc _]]. split; assumption. Qed.
+
+Lemma st_adm : forall F S, wf F -> st F S -> adm F S.
+Proof.
+  intros F S [_ Hw] [Hi [Hc Hs]]. split; [exact Hi|]. split; [exact Hc|].
+  intros a Ha b Hba. apply Hs.
+  - apply (Hw b a). exact Hba.
+  - intros Hb. exact (Hc b a Hb Ha Hba).
+Qed.
+
+Theorem st_co : forall F S, wf F -> st F S -> co F S.
+Proof.
+  intros F S Hw HS. split; [apply st_adm; assumption|].
+  intros a Hin Hd. destruct (memb a S) eqn:E; [apply memb_In; exact E|].
+  apply memb_false in E. destruct HS as [Hi [Hc Hs]].
+  destruct (Hs a Hin E) as [b [Hb Hba]]. destruct (Hd b Hba) as [c [Hc' Hcb]].
+  exfalso. exact (Hc c b Hc' Hb Hcb).
+Qed.
+
+Theorem st_pr : forall F S, wf F -> st F S -> pr F S.
+Proof.
+  intros F S Hw HS. split; [apply st_adm; assumption|].
+  intros S' HS' Hi a Ha. destruct (memb a S) eqn:E; [apply memb_In; exact E|].
+  apply memb_false in E. destruct HS as [_ [_ Hs]].
+  destruct (Hs a (adm_incl F S' HS' a Ha) E) as [b [Hb Hba]].
+  exfalso. exact (adm_cf F S' HS' b a (Hi b Hb) Ha Hba).
+Qed.
+
+Theorem pr_co : forall F S, wf F -> pr F S -> co F S.
+Proof.
+  intros F S _ [HS Hm]. split; [exact HS|]. intros a Hin Hd.
+  apply (Hm (a :: S)).
+  - apply fundamental_adm; assumption.
+  - apply incl_tl. apply incl_refl.
+  - left. reflexivity.
+Qed.
+
+Theorem gr_co : forall F S, wf F -> gr F S -> co F S.
+Proof. intros F S _ [H _]. exact H. Qed.
+
+Theorem sst_co : forall F S, wf F -> sst F S -> co F S.
+Proof. intros F S _ [H _]. exact H. Qed.
+
+Lemma stg_cfs : forall F S, stg F S -> cfs F S.
+Proof. intros F S [H _]. exact H. Qed.
+
+(* ranges *)
+Lemma range_incl_of_incl : forall F S T, incl S T -> range_incl F S T.
+Proof.
+  intros F S T H a _ [Ha|[b [Hb Hba]]].
+  - left. apply H. exact Ha.
+  - right. exists b. split; [apply H; exact Hb | exact Hba].
+Qed.
+
+Lemma range_incl_refl : forall F S, range_incl F S S.
+Proof. intros F S a _ H. exact H. Qed.
+
+Lemma range_incl_trans : forall F S T U,
+  range_incl F S T -> range_incl F T U -> range_incl F S U.
+Proof. intros F S T U H1 H2 a Hin H. apply H2; [exact Hin|]. apply H1; assumption. Qed.
+
+Lemma st_range_full : forall F S, st F S -> forall a, In a (args F) -> in_range F S a.
+Proof.
+  intros F S [_ [_ Hs]] a Hin. destruct (memb a S) eqn:E.
+  - left. apply memb_In. exact E.
+  - right. apply Hs; [exact Hin | apply memb_false; exact E].
+Qed.
+
+Lemma range_full_st : forall F S,
+  cfs F S -> (forall a, In a (args F) -> in_range F S a) -> st F S.
+Proof.
+  intros F S [Hi Hc] H. split; [exact Hi|]. split; [exact Hc|].
+  intros a Hin Hn. destruct (H a Hin) as [Ha|Hex]; [contradiction | exact Hex].
+Qed.
+
+Lemma st_iff_range_full : forall F S,
+  st F S <-> cfs F S /\ forall a, In a (args F) -> in_range F S a.
+Proof.
+  intros F S. split.
+  - intros H. split; [apply st_cfs; exact H | apply st_range_full; exact H].
+  - intros [H1 H2]. apply range_full_st; assumption.
+Qed.
+
+Theorem st_sst : forall F S, wf F -> st F S -> sst F S.
+Proof.
+  intros F S Hw HS. split; [apply st_co; assumption|].
+  intros S' _ _ a Hin _. apply st_range_full; assumption.
+Qed.
+
+Theorem st_stg : forall F S, wf F -> st F S -> stg F S.
+Proof.
+  intros F S _ HS. split; [apply st_cfs; exact HS|].
+  intros S' _ _ a Hin _. apply st_range_full; assumption.
+Qed.
+
+Theorem sst_pr : forall F S, wf F -> sst F S -> pr F S.
+Proof.
+  intros F S Hw [Hc Hm]. split; [apply co_adm; exact Hc|].
+  intros S' HS' Hi a Ha.
+  destruct (adm_extends_pr F S' Hw HS') as [P [HP HiP]].
+  pose proof (pr_co F P Hw HP) as HPc.
+  assert (Hr : range_incl F P S).
+  { apply Hm; [exact HPc|]. apply range_incl_of_incl. exact (incl_tran Hi HiP). }
+  destruct (Hr a) as [H|[b [Hb Hba]]].
+  - apply (adm_incl F S' HS'). exact Ha.
+  - left. apply HiP. exact Ha.
+  - exact H.
+  - exfalso. apply (adm_cf F P (pr_adm F P HP) b a).
+    + apply HiP. apply Hi. exact Hb.
+    + apply HiP. exact Ha.
+    + exact Hba.
+Qed.
+
+(* existence *)
+Theorem co_exists : forall F, wf F -> exists S, co F S.
+Proof. intros F _. exists (lfp F). apply lfp_co. Qed.
+
+Definition rsize (F : af) (S : list nat) : nat :=
+  length (filter (in_rangeb F S) (args F)).
+
+Lemma rsize_le : forall F S T, range_incl F S T -> rsize F S <= rsize F T.
+Proof.
+  intros F S T H. unfold rsize. apply filter_length_le. intros x Hx Hr.
+  apply in_rangeb_spec. apply H; [exact Hx|]. apply in_rangeb_spec. exact Hr.
+Qed.
+
+Lemma rsize_seteq : forall F S T, seteq S T -> rsize F S = rsize F T.
+Proof.
+  intros F S T E. apply Nat.le_antisymm; apply rsize_le; apply range_incl_of_incl.
+  - apply seteq_incl1. exact E.
+  - apply seteq_incl2. exact E.
+Qed.
+
+Lemma rsize_eq_range_incl : forall F S T,
+  range_incl F S T -> rsize F S = rsize F T -> range_incl F T S.
+Proof.
+  intros F S T H E a Hin Hr. apply in_rangeb_spec.
+  apply (filter_length_eq (in_rangeb F S) (in_rangeb F T) (args F)).
+  - intros x Hx Hx'. apply in_rangeb_spec. apply H; [exact Hx|]. apply in_rangeb_spec. exact Hx'.
+  - exact E.
+  - exact Hin.
+  - apply in_rangeb_spec. exact Hr.
+Qed.
+
+(* a non-empty decidable family of sets of arguments has a range-maximal member *)
+Lemma range_max_exists : forall F (qb : list nat -> bool) (Q : list nat -> Prop),
+  (forall S, qb S = true <-> Q S) ->
+  (forall S T, seteq S T -> Q S -> Q T) ->
+  (forall S, Q S -> incl S (args F)) ->
+  (exists S, Q S) ->
+  exists M, Q M /\ forall S', Q S' -> range_incl F M S' -> range_incl F S' M.
+Proof.
+  intros F qb Q Hrefl Hinv Hincl [S0 HS0].
+  destruct (fin_max (args F) qb Q (rsize F) Hrefl Hinv (rsize_seteq F))
+    as [M [_ [HM Hmax]]].
+  - exists S0. split; [apply Hincl; exact HS0 | exact HS0].
+  - exists M. split; [exact HM|]. intros S' HS' Hr.
+    apply rsize_eq_range_incl; [exact Hr|]. apply Nat.le_antisymm.
+    + apply rsize_le. exact Hr.
+    + apply Hmax; [apply Hincl; exact HS' | exact HS'].
+Qed.
+
+Theorem sst_exists : forall F, wf F -> exists S, sst F S.
+Proof.
+  intros F Hw.
+  destruct (range_max_exists F (cob F) (co F) (cob_co F) (co_seteq F) (co_incl F)
+              (co_exists F Hw)) as [M [HM Hmax]].
+  exists M. split; assumption.
+Qed.
+
+Theorem stg_exists : forall F, wf F -> exists S, stg F S.
+Proof.
+  intros F _.
+  destruct (range_max_exists F (cfsb F) (cfs F) (cfsb_cfs F) (cfs_seteq F) (cfs_incl F))
+    as [M [HM Hmax]].
+  - exists []. split; [intros a [] | apply cf_nil].
+  - exists M. split; assumption.
+Qed.
+
+(* ------------------------------------------------------------------ *)
+(** * 4. With a stable extension, semi-stable = stage = stable *)
+
+Theorem sst_st_collapse : forall F S, wf F -> (exists T, st F T) -> (sst F S <-> st F S).
+Proof.
+  intros F S Hw [T HT]. split; [|apply st_sst; exact Hw].
+  intros [Hc Hm]. apply range_full_st.
+  - split; [apply co_incl; exact Hc | apply adm_cf; apply co_adm; exact Hc].
+  - intros a Hin. apply (Hm T).
+    + apply st_co; assumption.
+    + intros x Hx _. apply st_range_full; assumption.
+    + exact Hin.
+    + apply st_range_full; assumption.
+Qed.
+
+Theorem stg_st_collapse : forall F S, wf F -> (exists T, st F T) -> (stg F S <-> st F S).
+Proof.
+  intros F S Hw [T HT]. split; [|apply st_stg; exact Hw].
+  intros [Hc Hm]. apply range_full_st; [exact Hc|].
+  intros a Hin. apply (Hm T).
+  - apply st_cfs. exact HT.
+  - intros x Hx _. apply st_range_full; assumption.
+  - exact Hin.
+  - apply st_range_full; assumption.
+Qed.
+
+(* ------------------------------------------------------------------ *)
+(** * 6. Acceptance *)
+
+Theorem adm_extends_co : forall F S, wf F -> adm F S -> exists C, co F C /\ incl S C.
+Proof.
+  intros F S Hw HS. destruct (adm_extends_pr F S Hw HS) as [P [HP Hi]].
+  exists P. split; [apply pr_co; assumption | exact Hi].
+Qed.
+
+Theorem cred_co_adm : forall F A, wf F ->
+  (cred CO F A <-> exists S, adm F S /\ exists a, In a A /\ In a S).
+Proof.
+  intros F A Hw. unfold cred. cbn [ext]. split.
+  - intros [S [HS Hm]]. exists S. split; [apply co_adm; exact HS | exact Hm].
+  - intros [S [HS [a [HaA HaS]]]]. destruct (adm_extends_co F S Hw HS) as [C [HC Hi]].
+    exists C. split; [exact HC|]. exists a. split; [exact HaA | apply Hi; exact HaS].
+Qed.
+
+Theorem cred_co_pr : forall F A, wf F -> (cred CO F A <-> cred PR F A).
+Proof.
+  intros F A Hw. unfold cred. cbn [ext]. split.
+  - intros [S [HS [a [HaA HaS]]]].
+    destruct (adm_extends_pr F S Hw (co_adm F S HS)) as [P [HP Hi]].
+    exists P. split; [exact HP|]. exists a. split; [exact HaA | apply Hi; exact HaS].
+  - intros [S [HS Hm]]. exists S. split; [apply pr_co; assumption | exact Hm].
+Qed.
+
+Theorem cred_pr_adm : forall F A, wf F ->
+  (cred PR F A <-> exists S, adm F S /\ exists a, In a A /\ In a S).
+Proof.
+  intros F A Hw. rewrite <- (cred_co_pr F A Hw). apply cred_co_adm. exact Hw.
+Qed.
+
+Theorem skep_co_gr : forall F G A, wf F -> gr F G ->
+  (skep CO F A <-> exists a, In a A /\ In a G).
+Proof.
+  intros F G A _ [HG Hm]. unfold skep. cbn [ext]. split.
+  - intros H. apply H. exact HG.
+  - intros [a [HaA HaG]] S HS. exists a. split; [exact HaA | apply (Hm S HS); exact HaG].
+Qed.
+
+Theorem skep_gr_co : forall F A, wf F -> (skep GR F A <-> skep CO F A).
+Proof.
+  intros F A Hw. rewrite (skep_co_gr F (lfp F) A Hw (gr_lfp F Hw)). unfold skep. cbn [ext]. split.
+  - intros H. apply H. apply gr_lfp. exact Hw.
+  - intros [a [HaA HaG]] S HS. exists a. split; [exact HaA|].
+    apply (proj2 (gr_unique F S Hw HS a)). exact HaG.
+Qed.
+
+Theorem skep_cred : forall s F A, (exists S, ext s F S) -> skep s F A -> cred s F A.
+Proof. intros s F A [S HS] H. exists S. split; [exact HS | apply H; exact HS]. Qed.
+
+Theorem st_none_skep : forall F A, (forall S, ~ st F S) -> skep ST F A.
+Proof. intros F A H S HS. exfalso. exact (H S HS). Qed.
+
+Theorem st_none_not_cred : forall F A, (forall S, ~ st F S) -> ~ cred ST F A.
+Proof. intros F A H [S [HS _]]. exact (H S HS). Qed.
+
+(* every semantics except stable has an extension in a well-formed framework
+   (the ideal case is [idl_exists] below) *)
